@@ -460,6 +460,9 @@ func RunC09(c *Ctx) error {
 		cfgs = append(cfgs, cs)
 	}
 	for gi, gc := range st.cases {
+		if gc.IR != nil && gc.IR.Big && c.Tier == "quick" {
+			continue // seconds per run: thorough only
+		}
 		for fi, fs := range quickFlags {
 			add(gc, fs, envs[(gi+fi)%len(envs)])
 		}
@@ -501,6 +504,9 @@ func RunC09(c *Ctx) error {
 			return err
 		}
 		cs.ref = res
+		if res.TimedOut || res.Exit == simrt.ExitTickBudget {
+			return nil // non-termination is judged below; the real binary would only hang as well
+		}
 		// fidelity: the real binary in the same place
 		s := cs.spec
 		rr, err := st.workers[w].Exec(g.Real, &s, st.timeout)
@@ -523,6 +529,10 @@ func RunC09(c *Ctx) error {
 		ticks += cs.ref.Ticks
 		if cs.ref.Ticks > maxTicks {
 			maxTicks = cs.ref.Ticks
+		}
+		if realRes[i] == nil {
+			c09Judge(c, st, cs, c09Plan{Spec: cs.spec, Env: cs.env}, cs.ref, nil, false, "fault-free")
+			continue
 		}
 		if d := c11Compare(realRes[i], cs.ref); d != "" {
 			return Harnessf("fidelity: instrumented gocc differs from the real binary on %s %v env=%+v: %s", cs.gc.ID, cs.flags, cs.env, d)
